@@ -256,9 +256,16 @@ def run_driver(driver_rel, ops_path, out_path):
     rc, out = lake_build(mods)
     if rc != 0:
         return rc, "driver imports failed to build:\n" + out[-1500:]
-    with open(ops_path) as i, open(out_path, "w") as o, Lock("lake", shared=True):
-        p = subprocess.run(["lake", "env", "lean", "--run", driver_rel], cwd=LEAN, stdin=i, stdout=o,
-                           stderr=subprocess.PIPE, text=True, timeout=3000)
+    # The driver only READS compiled modules (at start-up); it is run without the lake lock so that one long
+    # interpretation cannot serialise every other check.  A writer replacing an .olean exactly while the driver
+    # loads it is possible in principle: retry once (after re-building the imports) before reporting.
+    for attempt in (1, 2):
+        with open(ops_path) as i, open(out_path, "w") as o:
+            p = subprocess.run(["lake", "env", "lean", "--run", driver_rel], cwd=LEAN, stdin=i, stdout=o,
+                               stderr=subprocess.PIPE, text=True, timeout=3000)
+        if p.returncode == 0:
+            break
+        lake_build(mods)
     return p.returncode, p.stderr[-1500:]
 
 
